@@ -4,6 +4,12 @@ import Mamba.Drv.C13
 import Mamba.Drv.C20
 import Mamba.Drv.C05
 import Mamba.Drv.C19
+import Mamba.Drv.C16
+import Mamba.Drv.C17
+import Mamba.Drv.C07
+import Mamba.Drv.C08
+import Mamba.Drv.C09
+import Mamba.Drv.C10
 
 namespace Drv
 
@@ -16,6 +22,27 @@ def dispatch (line : String) : String :=
   | "tspf" :: args => C20.handleFault args
   | "c05" :: args => C05.handle args
   | "c19" :: args => C19.handle args
+  | "coeffu" :: args => C16.handle ("coeffu" :: args)
+  | "coeff" :: args => C16.handle ("coeff" :: args)
+  | "coeffs" :: args => C16.handle ("coeffs" :: args)
+  | "rank" :: args => C16.handle ("rank" :: args)
+  | "unrank" :: args => C16.handle ("unrank" :: args)
+  | "colex" :: args => C16.handle ("colex" :: args)
+  | "si" :: args => C17.handleSi args
+  | "srt" :: args => C17.handleSrt args
+  | "g6" :: args => C07.handleG6 args
+  | "s6" :: args => C07.handleS6 args
+  | "mc" :: args => C07.handleMc args
+  | "mcm" :: args => C07.handleMcm args
+  | "pe" :: args => C07.handlePe args
+  | "pd" :: args => C07.handlePd args
+  | "fmt" :: args => C07.handleFmt args
+  | "g6d" :: args => C08.handleG6d args
+  | "s6d" :: args => C08.handleS6d args
+  | "c09" :: args => C09.handle args
+  | "c09w" :: args => C09.handleW args
+  | "c10" :: args => C10.handle args
+  | "c10d" :: args => C10.handleD args
   | _ => "bad-op"
 
 end Drv
